@@ -10,6 +10,9 @@ def _mc(*runs):
 
 PROPS = {
     'C11': {
+        'gen': s2c.gen_ladder,
+        'mc': _mc({'module': 'MC_Ladder', 'cfg': 'MC_Ladder', 'tier': 'both', 'actions': ['Toggle', 'Next', 'Reset']},
+                  {'module': 'MC_Ladder', 'cfg': 'MC_Ladder_full', 'tier': 'thorough'}),
         'rule': 'one event per encode call; non-trivial = integer inside [-2^63, 2^63-1] or a toggle/nested position; '
                 'distinct = distinct (action, abstract input) pairs',
     },
@@ -59,5 +62,5 @@ PROPS = {
                     'every call judged against the pure operator',
             'mc': _mc({'module': 'MC_Threads', 'cfg': 'MC_Threads', 'tier': 'both', 'actions': ['Begin', 'Step', 'End']},
                       {'module': 'MC_Threads', 'cfg': 'MC_Threads_dev', 'tier': 'both', 'expect_violation': 'PureResults'}),
-            'gen': s2c.gen_threads},
+            'gen': s2c.gen_threads_and_ladder},
 }
